@@ -11,8 +11,8 @@ func init() {
 	register(&propDef{
 		id:          "C15",
 		run:         runC15,
-		explanation: "Static analysis of the internal-key order and the index-key shortening wrappers: (1) iComparer.Compare's sign table, computed by abstract interpretation of its loop-free CFG over the finite order domain (user-key comparison ∈ {-,0,+} × trailer comparison ∈ {<,=,>}): user keys ascending through the configured comparer, equal user keys by DEscending (sequence<<8|kind); operands taken from the right arguments in the right order; (2) the shortening guards: iComparer.Separator/Successor return a shortened key only when the user comparer produced one, it is shorter than the original and strictly greater than the left key, and they append the maximal trailer; otherwise nil (the caller keeps the full key); (3) encode/decode agreement of the trailer ((seq<<8)|kind little-endian in the last 8 bytes), range checks on construction and parsing, and the constants (the seek kind is the largest kind, keyMaxSeq = 2^56-1, keyMaxNum = keyMaxSeq<<8|seek); (4) comparer discipline. Necessary conditions: totality/transitivity for an arbitrary user comparer, the bytewise comparer's own Separator/Successor laws and 'the index routes every lookup' quantify over all byte strings and are NOT decided.",
-		notCovered:  "order laws (totality, transitivity) for arbitrary user comparers; bytesComparer.Separator/Successor laws over all byte strings; that the index built from shortened keys routes every lookup",
+		explanation: "Static analysis of the internal-key order and the index-key shortening wrappers: (1) iComparer.Compare's sign table, computed by abstract interpretation of its loop-free CFG over the finite order domain (user-key comparison ∈ {-,0,+} × trailer comparison ∈ {<,=,>}): user keys ascending through the configured comparer, equal user keys by DEscending (sequence<<8|kind); operands taken from the right arguments in the right order; (2) the shortening guards: iComparer.Separator/Successor return a shortened key only when the user comparer produced one, it is shorter than the original and strictly greater than the left key, and they append the maximal trailer; otherwise nil (the caller keeps the full key); (3) encode/decode agreement of the trailer ((seq<<8)|kind little-endian in the last 8 bytes), range checks on construction and parsing, and the constants (the seek kind is the largest kind, keyMaxSeq = 2^56-1, keyMaxNum = keyMaxSeq<<8|seek); (4) comparer discipline; (5) the bytewise comparer's shortening guards: for its construction (common prefix + first differing byte of a incremented) a shortened separator is returned only under a[i]+1 < b[i] (or a[i] < b[i] with b longer), a successor only at a byte != 0xff. Necessary conditions: totality/transitivity for an arbitrary user comparer, the laws of OTHER shortening constructions and 'the index routes every lookup' quantify over all byte strings and are NOT decided.",
+		notCovered:  "order laws (totality, transitivity) for arbitrary user comparers; Separator/Successor laws of user comparers and of any construction other than prefix+increment; that the index built from shortened keys routes every lookup",
 		assumptions: []string{"the user comparer satisfies its documented contract"},
 	})
 }
@@ -28,6 +28,9 @@ func runC15(p *Prog, r *Report) {
 	}
 	if want("C15.3") {
 		ruleKeyCodec(p, r, "C15.3")
+	}
+	if want("C15.5") {
+		ruleBytewiseShortening(p, r, "C15.5")
 	}
 	if want("C15.4") {
 		ruleComparerDiscipline(p, r, "C15.4", cmpPkgs, nil)
